@@ -9,6 +9,8 @@ import (
 	"fmt"
 	"path/filepath"
 	"reflect"
+	"slices"
+	"sort"
 	"time"
 
 	"github.com/gdamore/tcell/v2"
@@ -32,7 +34,11 @@ func dumpClients(d *debugger.Debugger) map[string]clientDump {
 				cd.txs = append(cd.txs, fmt.Sprintf("%s|%v|%v|%v|%v|%v|%d|%v|%d", tx.ID, tx.Clocks, tx.Accepted, tx.IsAuto, tx.IsCheck, tx.IsQueued, tx.QueueTick, tx.CalledStateNames(c.MsgStruct.StatesIndex), tx.MutQueueTick))
 			}
 			for _, p := range c.MsgTxsParsed {
-				cd.parsed = append(cd.parsed, fmt.Sprintf("%v|%v|%v|%d|%d", p.StatesAdded, p.StatesRemoved, p.StatesTouched, p.TimeSum, p.TimeDiff))
+				// (index -1 = a step naming the pseudo-state Any: not a state, left out of the comparison)
+				touched := slices.DeleteFunc(append([]int{}, p.StatesTouched...), func(i int) bool { return i < 0 })
+				sort.Ints(touched)
+				touched = slices.Compact(touched)
+				cd.parsed = append(cd.parsed, fmt.Sprintf("%v|%v|%v|%d|%d", p.StatesAdded, p.StatesRemoved, touched, p.TimeSum, p.TimeDiff))
 			}
 			out[id] = cd
 		}
